@@ -100,6 +100,19 @@ class LibMap:
                 f = em.paren(em.E(a0))
                 return self.fn_call(em, n, f, args[1:], fnt)
             if op == "=":
+                src = skip(args[1])
+                while src.get("kind") in ("CXXConstructExpr", "CXXFunctionalCastExpr") and len(src.get("inner", [])) == 1:
+                    src = skip(src["inner"][0])
+                if src.get("kind") == "LambdaExpr":  # stored closure: its captures must outlive the block
+                    return "%s = %s" % (em.paren(em.E(a0)), em.lift_lambda(src, heap=True))
+                sct = self.mapped(em, args[1])
+                if src.get("kind") in ("CXXNullPtrLiteralExpr", "GNUNullExpr") or sct == "void*":
+                    return "%s = ((struct vf_fn){0})" % em.paren(em.E(a0))  # f = nullptr
+                if sct != "struct vf_fn":
+                    v = self.to_vf_fn(em, args[1])  # f = lambda / function pointer
+                    if v is None:
+                        return None
+                    return "%s = %s" % (em.paren(em.E(a0)), v)
                 return "%s = %s" % (em.paren(em.E(a0)), em.E(args[1]))
             return None
         if ct0.startswith("struct vf_map_") and op == "[]":
